@@ -14,7 +14,7 @@ from . import common
 
 PROPERTY = "C14"
 LEVEL = "exploration"
-BUDGET = {"quick": 40, "thorough": 600}
+BUDGET = {"quick": 60, "thorough": 600}
 EVIDENCE = {
     "rule": "a real ThreadedTaskDispatcher driven by 1-3 simulated submitter threads (<= 12 tasks; task bodies sleep, "
             "raise Exception/BaseException, or submit a follow-up task), 1-3 workers, up to 3 set_thread_count calls (some back to "
